@@ -292,12 +292,18 @@ def rule_tuple_coherence(eng, rep, A, rule="C03-4.result-components-travel-toget
     # get_final_results: each return takes everything from the slots or nothing from them
     nret = 0
     lens = set()
+    gcfg = eng.cfg(gf)
+    from .common import expand_locals
+    expanded = {}
+    for node in eng.prog.own_nodes(gf):
+        if isinstance(node, ast.Return) and isinstance(node.value, ast.Tuple):
+            expanded[id(node)] = [expand_locals(gcfg, node, e) for e in node.value.elts]      # explaining variables are looked through
     for node in eng.prog.own_nodes(gf):
         if isinstance(node, ast.Return) and isinstance(node.value, ast.Tuple):
             nret += 1
             lens.add(len(node.value.elts))
             kinds = []
-            for e in node.value.elts:
+            for e in expanded[id(node)]:
                 m = mentions(e)
                 kinds.append("slot" if m & set(slots) else "live")
             if len(set(kinds)) == 1:
@@ -307,7 +313,7 @@ def rule_tuple_coherence(eng, rep, A, rule="C03-4.result-components-travel-toget
                         "returned tuple mixes saved-slot and live components: %s" % list(zip([short(e, 20) for e in node.value.elts], kinds)))
             if kinds and kinds[0] == "live":
                 # live record: every per-point component is the kopt entry
-                for e in node.value.elts:
+                for e in expanded[id(node)]:
                     t = ekey(e)
                     if any(f in t for f in ("nsamples", "eval_num[", "fval_v", "objval[")) and "kopt" not in t:
                         rep.bad(rule, eng.where(gf, node), "model.Model.get_final_results|live-not-kopt|%s" % t[:30], "live component `%s` is not the incumbent's entry" % t)
@@ -320,7 +326,7 @@ def rule_tuple_coherence(eng, rep, A, rule="C03-4.result-components-travel-toget
         stems = [("x", "xopt", "xsave"), ("r", "ropt", "rsave"), ("obj", "objopt", "objsave"), ("jac", "model_jac", "jacsave"),
                  ("nsamples", "nsamples", "nsamples_save"), ("eval_num", "eval_num", "eval_num_save"), ("jac_eval_nums", "model_jac_eval_nums", "jacsave_eval_nums")]
         for r in rets:
-            for i, e in enumerate(r.value.elts):
+            for i, e in enumerate(expanded[id(r)]):
                 if i >= len(stems):
                     break
                 m = mentions(e)
@@ -339,11 +345,8 @@ def rule_tuple_coherence(eng, rep, A, rule="C03-4.result-components-travel-toget
         st = eng.prog.stmt_of(ci.node)
         for i, nme in enumerate(assigned_names(st.targets[0])):
             unpack.setdefault(nme, set()).add(i)
-    tup = None
-    for st in merge.ifnode.body:
-        if isinstance(st, ast.Assign) and isinstance(st.targets[0], (ast.Tuple, ast.List)) and isinstance(st.value, ast.Tuple):
-            tup = st
-    if tup is None:
+    tup = merge.anchor
+    if not (isinstance(tup, ast.Assign) and isinstance(tup.targets[0], (ast.Tuple, ast.List)) and isinstance(tup.value, ast.Tuple)):
         rep.unknown(rule, eng.where(solve, merge.ifnode), "merge assignment not found")
         return
     tnames = assigned_names(tup.targets[0])
@@ -428,10 +431,18 @@ def _is_sumsq(eng, e):
     return isinstance(e, ast.Call) and any(t.fid == "util.sumsq" for t in eng.res.calls[id(e)].targets)
 
 
-def _is_hcall(eng, e):
+def _is_hcall(eng, e, depth=2):
+    """A call of the user's regulariser h, or of an internal wrapper every return of which is such a call (helper extraction)."""
     if isinstance(e, ast.Call):
         ci = eng.res.calls.get(id(e))
-        return ci is not None and ci.role is not None and "h" in ci.role.split("|")
+        if ci is not None and ci.role is not None and "h" in ci.role.split("|"):
+            return True
+        if ci is not None and ci.targets and depth > 0:
+            for t in ci.targets:
+                rets = [r for r in eng.prog.own_nodes(t) if isinstance(r, ast.Return)]
+                if not rets or not all(r.value is not None and _is_hcall(eng, r.value, depth - 1) for r in rets):
+                    return False
+            return True
     return False
 
 
